@@ -2,6 +2,9 @@
 import ChessVerif.Drv.Iter
 import ChessVerif.Model.Bot
 import ChessVerif.Model.SearchDefs
+import ChessVerif.Spec.Mirror
+import ChessVerif.Spec.ScoreNeg
+import ChessVerif.Proofs.Minimax.Defs
 import ChessVerif.Model.Book
 import ChessVerif.Spec.Bot
 
@@ -46,6 +49,41 @@ def handleSearchFp : List String → Ans
          | some t => t
          | none => toString (Proofs.Search.firstPassFinished b (buildTable hist) k), "-")
       | _, _ => bad
+  | _ => bad
+
+/-- `minimax <pos64> d=<depth>`: the score a completed deepening pass at `depth` reports (empty
+history).  Model: plain minimax `rootValue` (the right-hand side of the C13 exactness theorem);
+specification: the negated plain-minimax value of the colour-mirrored position. -/
+def handleMinimax : List String → Ans
+  | p :: rest => withPos p fun b =>
+      match (kv "d=" rest).bind String.toNat? with
+      | some d =>
+        (match genTrap b BB.full with
+         | some t => t
+         | none => showScore (Engine.rootValue b [] d), showScore (Spec.negScore (Engine.rootValue b.mirror [] d)))
+      | none => bad
+  | _ => bad
+
+/-- `mirrorchk <pos64>`: the facts about `Board.mirror` the C13 argument rests on, evaluated on this
+position (model side lists the ones that fail, `ok` if none) -/
+def handleMirrorChk : List String → Ans
+  | p :: _ => withPos p fun b =>
+      let m := b.mirror
+      let allSq := List.finRange 64
+      let posEq (p q : Spec.Position) : Bool :=
+        allSq.all (fun s => p.pieceAt s == q.pieceAt s) && p.turn == q.turn && p.ep == q.ep && p.half == q.half &&
+        p.full == q.full && [Side.king, Side.queen].all fun sd => [Color.white, Color.black].all fun c => p.rights sd c == q.rights sd c
+      let isPerm (a b : List Move) : Bool := a.length == b.length && a.all (fun x => a.count x == b.count x)
+      let problems : List String :=
+        (if m.WF then [] else ["mirror-not-WF"]) ++
+        (if posEq (Spec.abs m) (Spec.abs b).mirror then [] else ["abs-mirror"]) ++
+        (if m.mirror == b then [] else ["mirror-mirror"]) ++
+        (if isPerm (MoveGen.mvsOf (MoveGen.legals m)) ((MoveGen.mvsOf (MoveGen.legals b)).map Move.mirror) then [] else ["legals-mirror"]) ++
+        (if Engine.eval m == Spec.negScore (Engine.eval b) then [] else ["eval-mirror"]) ++
+        (if Engine.insufficientMaterial m == Engine.insufficientMaterial b then [] else ["insufficient-mirror"]) ++
+        (if m.inCheck == b.inCheck then [] else ["inCheck-mirror"]) ++
+        (if (MoveGen.mvsOf (MoveGen.legals b)).all (fun mv => { m.moveUnchecked mv.mirror with full := 0 } == { (b.moveUnchecked mv).mirror with full := 0 }) then [] else ["move-mirror"])
+      ((if problems.isEmpty then "ok" else ",".intercalate problems), "-")
   | _ => bad
 
 def handleSearchChk : List String → Ans
